@@ -39,7 +39,11 @@ const cstl_STRING_char_t * STRF(
 const cstl_STRING_char_t * STRF(str, const struct cstl_STRING * const s)
 {
     const cstl_STRING_char_t * str = STRF(data, (struct cstl_STRING *)s);
-    if (str == NULL) {
+    if (str == NULL || cstl_vector_size(&s->v) == 0) {
+        /*
+         * nothing, not even a terminator, has been stored yet; the
+         * buffer, if there is one (reserve), is still uninitialized
+         */
         str = &STRV(nul);
     }
     return str;
